@@ -203,7 +203,8 @@ static int process_completed_fragment(sqfs_block_processor_t *proc,
 		proc->frag_block = frag;
 		proc->frag_block->index = index;
 		proc->frag_block->flags &= SQFS_BLK_DONT_COMPRESS;
-		proc->frag_block->flags |= SQFS_BLK_FRAGMENT_BLOCK;
+		proc->frag_block->flags |= SQFS_BLK_FRAGMENT_BLOCK |
+					   SQFS_BLK_IGNORE_SPARSE;
 	} else {
 		index = proc->frag_block->index;
 		offset = proc->frag_block->size;
